@@ -91,7 +91,7 @@ func C11(c *Ctx) {
 	}
 	pkgFns := pkgClosure(exec)
 	traces := func(v ssa.Value, target ssa.Value) bool {
-		leaves := deepDefs(v, pkgFns)
+		leaves := resolveThroughLocals(v, pkgFns)
 		if len(leaves) == 0 {
 			return false
 		}
@@ -233,7 +233,7 @@ func C11(c *Ctx) {
 			return nil
 		}
 		seen[v] = true
-		for _, l := range deepDefs(v, pkgFns) {
+		for _, l := range resolveThroughLocals(v, pkgFns) {
 			cell := cellOf(l)
 			if cell == nil {
 				out = append(out, l)
